@@ -376,9 +376,15 @@ func (b *StatefulBlock[I, O, A]) queueAccept() {
 func (b *StatefulBlock[I, O, A]) processAccept(ctx context.Context) error {
 	defer b.vm.acceptedQueueBlocksProcessedWg.Done()
 
-	parent, err := b.vm.GetBlock(ctx, b.Parent())
-	if err != nil {
-		return fmt.Errorf("failed to get %s while accepting %s: %w", b.Parent(), b, err)
+	// Blocks are processed in acceptance order, so the parent is the last processed block. Looking it
+	// up by ID goes through the accepted-block cache, which the consensus thread has already advanced:
+	// when it runs ahead by more than the cache size the lookup falls back to the disk index and
+	// returns a block without its accepted state.
+	b.vm.metaLock.Lock()
+	parent := b.vm.lastProcessedBlock
+	b.vm.metaLock.Unlock()
+	if parent == nil || !parent.accepted || parent.ID() != b.Parent() {
+		return fmt.Errorf("last processed block %s is not the accepted parent %s of %s", parent, b.Parent(), b)
 	}
 	if err := b.accept(ctx, parent.Accepted); err != nil {
 		return err
